@@ -57,7 +57,7 @@ ASSUMPTIONS = [
     "quick tier: tuples that share specification file, grouping and record with a tuple of smaller index run the light chain "
     "(template, schema, load, export, size, parse, re-export, one configuration round trip); the full chain runs once per class, and for every tuple in the thorough tier",
 ]
-FLOORS = {"step:defaults": 0.10, "step:values": 0.10, "nondefault": 0.08, "form:enum_name": 0.01, "form:bitfields": 0.05}
+FLOORS = {"step:defaults": 0.05, "step:values": 0.05, "nondefault": 0.04, "form:enum_name": 0.005, "form:bitfields": 0.025}
 
 AREAS = ("pfr", "ifr", "bca", "fcf", "fcb", "xmcd", "tz", "fuses", "memcfg")
 _PFR_SIZES = {"cmpa": 512, "cfpa": 512}
@@ -1546,7 +1546,7 @@ def parts(ctx):
             get_schema_file(f)
     except Exception:  # noqa: BLE001 - a broken tree shows up as failures of the cases, not here
         pass
-    n_quick = 900
+    n_quick = 500
     return [
         EnumPart("defaults", _tuples_count, _tuples_item, run_defaults),
         HypPart("values", _values_strategy, run_values, {"quick": n_quick, "thorough": 30000}),
